@@ -52,7 +52,7 @@ def handle : List String → Verdict
         let passthrough := r' == r
         if passthrough then
           let same := status == 200 && rWire == wire && rEnc == enc && clOk && rCt == ct
-          let why := if skipAfter == trueLit then "skip" else if !List.isPrefixOf textHtml ct then "non-html" else "unsupported-encoding"
+          let why := if skipAfter == trueLit then "skip" else if !isHtml ct then "non-html" else "unsupported-encoding"
           { mismatch := if same then none else some s!"model: pass-through ({why}) but the response differs: status={status} bodySame={rWire == wire} enc={Bytes.toHex rEnc} clOk={clOk}",
             predfail := if same then none else some s!"pass-through response ({why}) was altered",
             nontrivial := why != "non-html" || enc != [], tags := ["passthrough:" ++ why], sig := s!"mod;passthrough;{why}" }
@@ -78,6 +78,19 @@ def handle : List String → Verdict
       { mismatch := if ok then none else some s!"overlapping response differs from the response alone: len {gotLen} vs {wantLen}, digest equal={wantSum == gotSum}, status {statusS}",
         predfail := if ok then none else some s!"{tag}: decoded body is not the document + script (len {gotLen} vs {wantLen}; Content-Length ok={rCL == Bytes.ofString wireLen})",
         nontrivial := true, tags := [tag], sig := "overlap" }
+    | _, _, _ => .badOp
+  | ["big", encH, sizeS, statusS, encKeptS, clOKS, decOKS, sameS, obsTailH, wantTailH] =>
+    match hexField encH, hexField obsTailH, hexField wantTailH with
+    | some enc, some obsTail, some wantTail =>
+      let show' := fun (b : Bytes) => String.ofList (b.map fun (c : UInt8) => Char.ofNat c.toNat)
+      { predfail :=
+          if statusS != "200" then some s!"{sizeS}-byte document ({show' enc}): status {statusS}"
+          else if encKeptS != "1" then some s!"{sizeS}-byte document: the Content-Encoding header no longer names the encoding of the body"
+          else if clOKS != "1" then some s!"{sizeS}-byte document ({show' enc}): Content-Length differs from the bytes sent"
+          else if decOKS != "1" then some s!"{sizeS}-byte document ({show' enc}): the body does not decode under its Content-Encoding"
+          else if sameS != "1" then some s!"{sizeS}-byte document ({show' enc}): the decoded body is not the document with the reload script appended; it ends …{show' (obsTail.drop (obsTail.length - 120))} instead of …{show' (wantTail.drop (wantTail.length - 120))}"
+          else none,
+        nontrivial := true, tags := ["big-document"], sig := "big" }
     | _, _, _ => .badOp
   | _ => .badOp
 
